@@ -43,6 +43,8 @@ def observe(reg, kind, extra=None, tagfn=None, absent=ABSENT):
             d["contains"] = k in reg
             reg[k]
             d["exc"] = "returned"
+        except KeyError:
+            d["exc"] = "KeyError"
         except BaseException as ex:  # noqa
             d["exc"] = type(ex).__name__
         ev["absent"].append(d)
